@@ -49,6 +49,15 @@ def isPermOfRange (n : Nat) (p : List Nat) : Bool :=
 
 def sortedNat (xs : List Nat) : Bool := xs.Pairwise (· ≤ ·)
 
+
+def parseDtype (s : String) : Except String Dtype :=
+  match s with
+  | "float32" => .ok .f32 | "float64" => .ok .f64
+  | _ => .error s!"bad-dtype:{s}"
+
+def parsePdim (s : String) : Except String (Option Nat) :=
+  if s == "none" then .ok none else (nat s).map some
+
 def opsC18 : List (String × Handler) := [
   -- c18.knn ord largest k D N1 N2 <ref> <nbr>   ->  N1*k values, then N1*k indices
   ("c18.knn", fun ts => do
@@ -141,6 +150,102 @@ def opsC18 : List (String × Handler) := [
         match randomFilter pm num pts with
         | none => throw "num-range"
         | some out => return fmt out.flatten
+      | _ => throw "arity"),
+  -- c18.api.nbr ord pdim|none D N n radius returnMask <pts>   -> "M mask|nomask rows…"; err check  (documented asserts)
+  ("c18.api.nbr", fun ts => do
+      match ts with
+      | o :: pdim :: d :: n :: nn :: radius :: rm :: rest =>
+        let o ← parseNorm o; let pdim ← parsePdim pdim; let d ← nat d; let n ← nat n; let nn ← int nn
+        let radius ← num radius; let rm ← nat rm
+        let xs ← nums rest
+        let (pts, _) ← takeCloud d n xs
+        match nbrFilterApi pts nn radius pdim o (rm == 1) with
+        | none => throw "check"
+        | some (out, mask) =>
+          let mtxt := match mask with
+            | none => "nomask"
+            | some m => "mask " ++ fmtNats (m.map fun b => if b then 1 else 0)
+          return fmtMixed (fmtMixed (toString out.length) mtxt) (fmt out.flatten)
+      | _ => throw "arity"),
+  -- c18.api.knnf ord pdim|none D N k hasRadius radius <pts>   -> M, M*D numbers; err check | k-range
+  ("c18.api.knnf", fun ts => do
+      match ts with
+      | o :: pdim :: d :: n :: kk :: hasR :: radius :: rest =>
+        let o ← parseNorm o; let pdim ← parsePdim pdim; let d ← nat d; let n ← nat n; let kk ← nat kk
+        let hasR ← nat hasR; let radius ← num radius
+        let xs ← nums rest
+        let (pts, _) ← takeCloud d n xs
+        let r : Option BigF := if hasR == 1 then some radius else none
+        match resolvePdim pdim pts with
+        | none => throw "check"
+        | some pd =>
+          match knnFilterApi topkStd pts kk pdim r o with
+          | none => throw "k-range"
+          | some out =>
+            let rows := (knnRetained o pd kk r pts).map fun p => pts.map (pdist o pd p)
+            if !(allTopkOk false rows (kk + 1)) then throw "contract-topk"
+            return fmtMixed (toString out.length) (fmt out.flatten)
+      | _ => throw "arity"),
+  -- c18.api.voxel random D vdim N M <rnd(M)> <vox> <pts>   -> M' , rows; err check      (random=0: M and rnd ignored, pass 0)
+  ("c18.api.voxel", fun ts => do
+      match ts with
+      | rnd :: d :: vdim :: n :: m :: rest =>
+        let rndF ← nat rnd; let d ← nat d; let vdim ← nat vdim; let n ← nat n; let m ← nat m
+        let (draws, rest) ← Wire.take m rest
+        let draws ← nats draws
+        let xs ← nums rest
+        let (vox, xs) ← Wire.take vdim xs
+        let (pts, _) ← takeCloud d n xs
+        match voxelFilterApi truncInt uniqStd argsortStd draws pts vox (rndF == 1) with
+        | none => throw "check"
+        | some out =>
+          let keys := voxKeys truncInt vox pts
+          let u := uniqStd keys
+          if !(uniqOk keys u) then throw "contract-unique"
+          if rndF == 1 then
+            if u.length != m then throw s!"voxel-count:{u.length}"
+            let inv := inverseIdx u keys
+            let srt := argsortStd inv
+            if !(isPermOfRange n srt && sortedNat (srt.map fun i => inv.getD i 0)) then throw "contract-argsort"
+          return fmtMixed (toString out.length) (fmt out.flatten)
+      | _ => throw "arity"),
+  -- c18.api.h2c dtype <p>
+  ("c18.api.h2c", fun ts => do
+      match ts with
+      | dtp :: rest =>
+        let dtp ← parseDtype dtp
+        let xs ← nums rest
+        if xs.isEmpty then throw "arity"
+        return fmt (homo2cartApi dtp xs)
+      | _ => throw "arity"),
+  -- c18.api.p2p dtype hasExt <K 9> [<ext 7>] <p 3>
+  ("c18.api.p2p", fun ts => do
+      match ts with
+      | dtp :: he :: rest =>
+        let dtp ← parseDtype dtp; let he ← nat he
+        let xs ← nums rest
+        if he == 1 then
+          if xs.length != 19 then throw "arity"
+          return fmt (point2pixelApi dtp (mat3 xs 0) (some (toSE3 xs 9)) (v3 xs 16))
+        else
+          if xs.length != 12 then throw "arity"
+          return fmt (point2pixelApi dtp (mat3 xs 0) none (v3 xs 9))
+      | _ => throw "arity"),
+  -- c18.api.reproj dtype reduction hasExt <K 9> [<ext 7>] <p 3> <px 2>     err check for an unknown reduction
+  ("c18.api.reproj", fun ts => do
+      match ts with
+      | dtp :: red :: he :: rest =>
+        let dtp ← parseDtype dtp; let he ← nat he
+        let xs ← nums rest
+        let r ← (if he == 1 then
+            (if xs.length != 21 then throw "arity" else
+              pure (reprojerrApi dtp (mat3 xs 0) (some (toSE3 xs 9)) red (v3 xs 16) [xs.getD 19 default, xs.getD 20 default]))
+          else
+            (if xs.length != 14 then throw "arity" else
+              pure (reprojerrApi dtp (mat3 xs 0) none red (v3 xs 9) [xs.getD 12 default, xs.getD 13 default])))
+        match r with
+        | none => throw "check"
+        | some e => return fmt e
       | _ => throw "arity"),
   -- c18.c2h <p>
   ("c18.c2h", numeric fun xs => .ok (cart2homo xs)),
